@@ -203,9 +203,11 @@ def client_record(seed, with_lists=True):
     district = rnd.random() < 0.35
     states = ("AA", "BB", "CC") if rnd.random() < 0.6 else ("AA", "BB", "CC", "DD")
     n = rnd.choice([48, 60, 72])
-    pre, cur = synth.make_election(n=n, states=states, seed=seed, district=district, frac_reporting=rnd.choice([0.5, 0.7, 0.85]), thr=100)
+    # some elections are fully reported (no outstanding unit anywhere): calls and stops must still be honoured
+    frac = rnd.choice([0.5, 0.7, 0.85, 1.0])
+    pre, cur = synth.make_election(n=n, states=states, seed=seed, district=district, frac_reporting=frac, thr=100)
     pre = synth.with_margin_features(pre)
-    stress = rnd.random() < 0.4
+    stress = rnd.random() < 0.4 and frac < 1.0
     if stress:
         # a few outstanding units far outside the covariate range of the reporting units: the regression
         # extrapolates their margin / turnout factor far beyond the admissible ranges, which the clips must contain
@@ -284,4 +286,59 @@ def client_record(seed, with_lists=True):
             }
         )
     return {"kind": "client", "lhs": lhs, "rhs": rhs, "stop": stop, "alphas": alphas, "district": district, "B": mp["B"],
-            "lambda": "cv" if lam is None else lam, "stress": stress, "groups": groups, "units": units}
+            "lambda": "cv" if lam is None else lam, "stress": stress, "fully_reported": frac == 1.0, "groups": groups, "units": units}
+
+
+def known_part_record(rnd):
+    """C06 / C11: a group with a reporting unit, an unexpected unit and a nonreporting unit with injected draws, through
+    the real get_aggregate_predictions / get_aggregate_prediction_intervals at a NON-top level (county), so that no
+    call logic interferes.  All inputs are small integers; the specification recomputes the bounds exactly."""
+    from fractions import Fraction
+
+    while True:
+        w, y, z = rnd.choice([2, 4, 6]), rnd.choice([-1, 0, 1]), rnd.choice([1, 2])
+        mu, wu = rnd.randint(-4, 4), rnd.randint(4, 7)
+        yz, zp = rnd.randint(-3, 3), rnd.randint(3, 5)
+        e = [[rnd.randint(-3, 3) for _ in range(2)] for _ in range(2)] + [[rnd.randint(2, 5) for _ in range(2)] for _ in range(2)]
+        e1, e2, e3, e4 = e
+        Kyz, Kz = w * y * z + mu, w * z + wu
+        d = [Fraction(Kyz + e1[k], Kz + e3[k]) - Fraction(Kyz + e2[k], Kz + e4[k]) for k in range(2)]
+        if d[0] <= d[1]:
+            break
+    model = new_model(B=3)
+    r, nr, x = frames(["AA"])
+    cols = list(nr.columns) + ["county_fips"]
+    nr["county_fips"] = "c1"
+    rr = nr.copy()
+    rr["geographic_unit_fips"] = "r0001"
+    rr["reporting"] = 1
+    rr["baseline_weights"] = float(w)
+    rr["results_normalized_margin"] = float(y)
+    rr["turnout_factor"] = float(z)
+    rr["results_margin"] = float(w * y * z)
+    rr["results_weights"] = float(w * z)
+    rr["pred_margin"] = float(w * y * z)
+    rr["pred_turnout"] = float(w * z)
+    xx = nr.copy()
+    xx["geographic_unit_fips"] = "x0001"
+    xx["unit_category"] = "unexpected"
+    xx["results_margin"] = float(mu)
+    xx["results_weights"] = float(wu)
+    xx["results_normalized_margin"] = float(mu) / float(wu)
+    xx["pred_margin"] = float(mu)
+    xx["pred_turnout"] = float(wu)
+    nr["pred_margin"] = float(yz)
+    nr["pred_turnout"] = float(zp)
+    model.ran_bootstrap = True
+    model.B = 3
+    model.weighted_z_test_pred = np.array([[float(zp)]])
+    model.weighted_yz_test_pred = np.array([[float(yz)]])
+    model.errors_B_1 = np.array([[e1[0], e1[1], e1[1]]], dtype=float)
+    model.errors_B_2 = np.array([[e2[0], e2[1], e2[1]]], dtype=float)
+    model.errors_B_3 = np.array([[e3[0], e3[1], e3[1]]], dtype=float)
+    model.errors_B_4 = np.array([[e4[0], e4[1], e4[1]]], dtype=float)
+    agg = ["postal_code", "county_fips"]
+    df = model.get_aggregate_predictions(rr, nr, xx, agg, "margin")
+    lo, hi = model.get_aggregate_prediction_intervals(rr, nr, xx, agg, 0.9, None, "margin")
+    obs = {"pred": sgn_scaled(df["pred_margin"].iloc[0], 1e4), "lower": sgn_scaled(np.asarray(lo).flatten()[0], 1e4), "upper": sgn_scaled(np.asarray(hi).flatten()[0], 1e4)}
+    return {"kind": "known", "w": w, "y": y, "z": z, "mu": mu, "wu": wu, "yz": yz, "zp": zp, "e1": e1, "e2": e2, "e3": e3, "e4": e4, "obs": obs}
